@@ -77,6 +77,22 @@ Theorem C08_missing_key_raises : forall ctx rec is_rec lits lit name spec conv r
 Proof. exact keep_items_first_missing. Qed.
 Print Assumptions C08_missing_key_raises.
 
+(** tokenizer round-trip: for every list of (brace-free literal, field) parts and trailing
+    literal, parsing the rendered string gives exactly those parts back — so the item-level
+    theorems above hold of all strings of this grammar, e.g. the next theorem *)
+Theorem C08_parse_render : forall fs tail,
+  Forall part_ok fs -> no_brace tail = true ->
+  parse (render_parts fs tail) = (items_of fs tail, PEnd).
+Proof. exact parse_render. Qed.
+Print Assumptions C08_parse_render.
+
+Theorem C08_single_expr_string : forall ctx rec name is_rec,
+  name_ok name = true ->
+  keep_type ctx rec (String lbrace (name ++ String rbrace EmptyString)) is_rec
+  = (let* obj := lookup_field ctx name in rec obj is_rec).
+Proof. exact keep_type_single_string. Qed.
+Print Assumptions C08_single_expr_string.
+
 (** * Non-vacuity and end-to-end instances through the real tokenizer (evaluated) *)
 Definition ctx0 : dict :=
   [(VStr "a", VInt 7); (VStr "b", VStr "{a}"); (VStr "c", VStr "x{b}y");
